@@ -163,6 +163,7 @@ func (s *Store) SetCollection(name string, compare KeyCompare) *Collection {
 			cnew.root = cold.rootAddRef()
 		}
 		coll[name] = cnew
+		verifPoint("coll.cas")
 		if s.casColl(orig, &coll) {
 			cold.closeCollection()
 			return cnew
@@ -214,6 +215,7 @@ func (s *Store) RemoveCollection(name string) {
 		coll := copyColl(*(*map[string]*Collection)(orig))
 		cold := coll[name]
 		delete(coll, name)
+		verifPoint("coll.cas")
 		if s.casColl(orig, &coll) {
 			cold.closeCollection()
 			return
